@@ -20,9 +20,9 @@ type c05 struct{}
 
 func init() { core.Register(c05{}) }
 
-func (c05) ID() string    { return "C05" }
-func (c05) Level() string { return "fault_enumeration" }
-func (c05) Race() bool    { return false }
+func (c05) ID() string             { return "C05" }
+func (c05) Level() string          { return "fault_enumeration" }
+func (c05) Race() bool             { return false }
 func (c05) MaxChildren(string) int { return 8 }
 func (c05) Rule() string {
 	return "outage scripts: fault kind{FIN,RST,BLACKHOLE} x number of refused redials k in {0,1,3,10,40,150} x backoff in {(5ms,10ms),(10ms,40ms),(50ms,200ms)} x {reconnect, no-reconnect} x error mapping {on,off} x optional second fault right after the successful redial x idle-after-reconnect; retry-tagged and untagged calls are in flight and issued during the outage (client parked at the redial hook). Distinct = (kind, k, backoff, options, second fault); non-trivial = at least one redial observed (or, for no-reconnect, the loss observed). Oracles: bounded-progress recovery (probe succeeds after the proxy heals), retry-tagged calls return their own token, untagged in-flight calls surface an error (typed when mapping is on), lower bound on the spacing of consecutive redial hook events (a sleep cannot return early, so load cannot falsify it), accept-count bound, zero accepts for no-reconnect."
